@@ -36,11 +36,13 @@ Theorem C18_response_block : forall cfg body ops,
 Proof. exact response_block_wrap. Qed.
 Print Assumptions C18_response_block.
 
-(* nothing interrupts: the client receives what the bare handler's client receives (status,
+(* (partial: guards no_late_headers, no_status_after_info, no_own_cl; HttpProofs.passthrough_guard_example
+   is a non-trivial instance; the excluded shapes are the _refuted witnesses below)
+   nothing interrupts: the client receives what the bare handler's client receives (status,
    headers, body, 1xx responses) and the handler reads what the bare handler reads - for handlers
    that set no header after the first WriteHeader/Write/Flush, send no status after a 1xx, and
    declare no Content-Length of their own *)
-Theorem C18_passthrough : forall cfg sk body ops,
+Theorem C18_passthrough_partial : forall cfg sk body ops,
   no_late_headers ops = true -> no_status_after_info ops = true -> no_own_cl ops = true ->
   let r := wrap_handler cfg sk body ops in
   r_intr r = None ->
@@ -48,11 +50,11 @@ Theorem C18_passthrough : forall cfg sk body ops,
   r_read r = r_read (bare_handler sk body ops) /\
   client_of sk (r_ds r) = client_of sk (r_ds (bare_handler sk body ops)).
 Proof. exact passthrough_holds. Qed.
-Print Assumptions C18_passthrough.
+Print Assumptions C18_passthrough_partial.
 
 (* the same, spelled out: the handler's status (implicit 200), its headers, the concatenation of
    its writes (unless the status carries no body), for every chunking, flush pattern and limit *)
-Theorem C18_passthrough_spec : forall cfg sk body ops,
+Theorem C18_passthrough_spec_partial : forall cfg sk body ops,
   no_late_headers ops = true -> no_status_after_info ops = true -> no_own_cl ops = true ->
   let r := wrap_handler cfg sk body ops in
   r_intr r = None ->
@@ -61,7 +63,7 @@ Theorem C18_passthrough_spec : forall cfg sk body ops,
   cl_status c = handler_status sk ops /\ cl_headers c = handler_headers ops /\
   cl_body c = (if okb sk (handler_status sk ops) then written ops else []).
 Proof. exact passthrough_spec. Qed.
-Print Assumptions C18_passthrough_spec.
+Print Assumptions C18_passthrough_spec_partial.
 
 (* the handler's req.Body yields the client's body: what it reads is a prefix, ReadAll gets all of
    it - for every body size relative to the limit, both limit actions, access on or off *)
